@@ -618,6 +618,18 @@ func run(e *hx.Env) {
 		b, err = buildManifest(r, "m0", false, 0)
 		addB(b, err)
 	}
+	if len(only) == 0 || only["jrn"] {
+		// the refuting witness of Props/C10 `journal_scan_no_panic_full_false`, replayed on the real code:
+		// a 9-byte journal `len=9 | tag=addr | crc32c` (valid checksum, address field missing)
+		body := []byte{0, 0, 0, 9, 2}
+		cr := crc32c(body)
+		rec := append(body, byte(cr>>24), byte(cr>>16), byte(cr>>8), byte(cr))
+		wb := &baseInfo{Base: Base{ID: "jw", Kind: "jrn", File: hx.Hex(rec), Aux: "-"}, stored: map[string]string{}}
+		wb.lay = journalLayout(rec)
+		j := &job{b: wb, mut: Mut{Trunc: -1}, region: "witness", shape: "crafted", extra: []string{absent}}
+		pool.runAll([]*job{j})
+		ck.check(j)
+	}
 	for _, b := range bases {
 		// the unmodified file must read back exactly (sanity of the harness itself)
 		j0 := &job{b: b, mut: Mut{Trunc: -1}, region: "none", shape: "intact", extra: []string{absent}}
